@@ -598,6 +598,24 @@ class GVN:
             nm = f.args[0].split(".")[-1]
             if nm in ("trace", "diag", "diagonal") and len(margs) == 1:
                 inner = self._n(margs[0])
+                if nm == "trace":
+                    # vmap(trace) over the leading axis of a rank-3 contraction result is itself a contraction:
+                    # identify the last two output letters and drop them from the output
+                    out_f: Form = {}
+                    ok_all = bool(inner)
+                    for a, c in inner.items():
+                        k = self.atom_keys[a]
+                        e_ = self.atom_keys[k[1]] if k[0] == "elem" and isinstance(k[1], int) else None
+                        if e_ is None or e_[0] != "einsum" or len(e_[2]) != 3:
+                            ok_all = False
+                            break
+                        ops_, out_ = e_[1], e_[2]
+                        ren = {out_[2]: out_[1]}
+                        new_ops = [(b, tuple(ren.get(ch, ch) for ch in subs)) for b, subs in ops_]
+                        at = self._canon_einsum(new_ops, (out_[0],))
+                        out_f[at] = c_add(out_f.get(at, ZERO), c)
+                    if ok_all:
+                        return f_clean(out_f)
                 r = self.lin1(inner, lambda a: self.atom(nm, a, ""))
                 return self.lin1(r, lambda a: self.atom("stack", a))
         if body is None:
